@@ -24,7 +24,7 @@ type tok = TAdd of char * int * int | TDone of int | TDisc of int | TBan of int 
 let parse_adm_tok e =
   let n = String.length e in
   try
-    if n >= 2 && e.[0] = 'A' then
+    if n >= 2 && (e.[0] = 'A' || e.[0] = 'L') then
       (match split_on '.' (String.sub e 2 (n - 2)) with
        | [""; p; h] when (e.[1] = 'i' || e.[1] = 'o' || e.[1] = 'p') ->
          let p = int_of_string p and h = int_of_string h in
